@@ -375,6 +375,20 @@ def order_fact(t, pol, rel, is_a, is_b):
     return False
 
 
+def startswith_fact(t, pol, is_subject, const):
+    """Does test `t` with outcome `pol` say that the subject starts with the constant `const` - as `x.startswith(c)` or
+    as the slice comparison `x[:len(c)] == c` (either side)?  Returns True (it does), False (it says it does not), None."""
+    if isinstance(t, ast.Call) and isinstance(t.func, ast.Attribute) and t.func.attr == "startswith" and is_subject(t.func.value) and len(t.args) == 1 \
+            and isinstance(t.args[0], ast.Constant) and t.args[0].value == const:
+        return bool(pol)
+    if isinstance(t, ast.Compare) and len(t.ops) == 1 and isinstance(t.ops[0], ast.Eq):
+        for a0, b0 in ((t.left, t.comparators[0]), (t.comparators[0], t.left)):
+            if isinstance(a0, ast.Subscript) and is_subject(a0.value) and isinstance(a0.slice, ast.Slice) and a0.slice.lower is None and a0.slice.step is None \
+                    and isinstance(a0.slice.upper, ast.Constant) and a0.slice.upper.value == len(const) and isinstance(b0, ast.Constant) and b0.value == const:
+                return bool(pol)
+    return None
+
+
 def str_template(e):
     """A string-building expression as a list of parts: literal text (str) and
     holes ('hole', expr text, conversion).  `'%s: %s' % (a, b)`, `f'{a}: {b}'`,
